@@ -38,7 +38,7 @@ Scn == [binding : Bindings, typ : {"SAMLRequest", "SAMLResponse", "SAMLart"}, ms
 WellFormed(s) ==
     /\ (s.signed => s.binding = "redirect")
     /\ (~s.locq => s.locqKind = "pair")
-    /\ (s.headers # 0 => s.binding = "soap")
+    /\ (s.headers # 0 => s.binding = "soap" /\ Len(s.msg) <= 1)
     /\ (s.locqKind # "pair" => s.msg = <<>> /\ ~s.signed)
     /\ (s.typ = "SAMLart" => s.binding = "redirect" /\ ~s.signed /\ s.msg = <<>>)
     /\ (s.decl # "none" => s.binding = "soap")                    \* message text starts with an XML declaration line (tool output)
